@@ -23,6 +23,7 @@ var R *mon.Run
 
 type typeStat struct {
 	encoded, encErr, cases int
+	exotic, peeked         int
 	arms                   map[string]bool
 	lastErr                string
 }
@@ -43,6 +44,9 @@ func roundTrip(e reg.Entry, caseIdx int, st *typeStat) {
 		nArms = 9
 	}
 	g.TopArm = caseIdx % nArms
+	// input classes beyond the plain ones: exotic cells where the schema has ^Cell, longest list forms
+	g.Exotic = caseIdx%4 >= 2
+	g.LongLists = caseIdx%4 == 1 || caseIdx%4 == 2
 	g.Bound = -1
 	if caseIdx/nArms < 9 {
 		g.Bound = caseIdx / nArms // walk the boundary values first, then random
@@ -53,6 +57,7 @@ func roundTrip(e reg.Entry, caseIdx int, st *typeStat) {
 		return
 	}
 	st.cases++
+	st.exotic += g.ExoticSeen
 	for _, a := range g.Trace {
 		st.arms[a] = true
 	}
@@ -143,8 +148,112 @@ func roundTrip(e reg.Entry, caseIdx int, st *typeStat) {
 				R.Violation("rehash-mismatch@"+e.Name, w)
 				return
 			}
+			// an application reads the cells and bit strings of the decoded value in place (peeks at an
+			// op-code, walks to a reference): that moves read cursors but leaves the TL-B value what it
+			// was, so encoding it once more gives the same cell
+			if n := peekAll(out.Elem(), 0); n > 0 {
+				st.peeked += n
+				c3 := boc.NewCell()
+				var err3 error
+				if p := mon.Guard(func() { err3 = tlb.Marshal(c3, out.Elem().Interface()) }); p != nil || err3 != nil {
+					w := wit()
+					w["err"] = fmt.Sprint(err3, p)
+					R.Violation("reencode-failed@after-read/"+e.Name, w)
+					return
+				}
+				if h3, _ := c3.Hash(); !bytes.Equal(h1, h3) {
+					w := wit()
+					w["reencoded"] = mon.Trunc(c3.ToString(), 600)
+					w["first"] = mon.Trunc(cell.ToString(), 600)
+					R.Violation("rehash-mismatch@after-read/"+e.Name, w)
+					return
+				}
+			}
 		}
 	}
+	// encoding is a function of the value: the value that has been encoded (and decoded from) once
+	// encodes to the same cell again
+	if herr == nil {
+		c4 := boc.NewCell()
+		var err4 error
+		if p := mon.Guard(func() { err4 = tlb.Marshal(c4, v.Interface()) }); p != nil || err4 != nil {
+			w := wit()
+			w["err"] = fmt.Sprint(err4, p)
+			R.Violation("second-encode-failed@"+e.Name, w)
+			return
+		}
+		if h4, _ := c4.Hash(); !bytes.Equal(h1, h4) {
+			w := wit()
+			R.Violation("second-encode-differs@"+e.Name, w)
+		}
+	}
+}
+
+var (
+	tCell      = reflect.TypeOf(boc.Cell{})
+	tAny       = reflect.TypeOf(tlb.Any{})
+	tBitString = reflect.TypeOf(boc.BitString{})
+	tSnake     = reflect.TypeOf(tlb.SnakeData{})
+)
+
+// peekAll reads, in place, from every cell and bit string an application can
+// reach through the exported fields of a decoded value: up to 32 bits and one
+// reference. Returns the number of places read.
+func peekAll(v reflect.Value, depth int) int {
+	if depth > 40 || !v.IsValid() {
+		return 0
+	}
+	t := v.Type()
+	switch {
+	case (t == tCell || t == tAny) && v.CanAddr():
+		c := v.Addr().Convert(reflect.PointerTo(tCell)).Interface().(*boc.Cell)
+		n := c.BitsAvailableForRead()
+		if n > 32 {
+			n = 32
+		}
+		read := 0
+		if n > 0 {
+			_, _ = c.ReadUint(n)
+			read = 1
+		}
+		if c.RefsAvailableForRead() > 0 {
+			_, _ = c.NextRef()
+			read = 1
+		}
+		return read
+	case (t == tBitString || t == tSnake) && v.CanAddr():
+		b := v.Addr().Convert(reflect.PointerTo(tBitString)).Interface().(*boc.BitString)
+		n := b.BitsAvailableForRead()
+		if n > 32 {
+			n = 32
+		}
+		if n > 0 {
+			_, _ = b.ReadUint(n)
+			return 1
+		}
+		return 0
+	}
+	n := 0
+	switch v.Kind() {
+	case reflect.Struct:
+		for i := 0; i < v.NumField(); i++ {
+			if t.Field(i).IsExported() {
+				n += peekAll(v.Field(i), depth+1)
+			}
+		}
+	case reflect.Pointer:
+		if !v.IsNil() {
+			n += peekAll(v.Elem(), depth+1)
+		}
+	case reflect.Slice, reflect.Array:
+		if t.Elem().Kind() == reflect.Uint8 {
+			return 0
+		}
+		for i := 0; i < v.Len(); i++ {
+			n += peekAll(v.Index(i), depth+1)
+		}
+	}
+	return n
 }
 
 // resetAll rewinds the read cursors of a whole tree (decoding moves them).
@@ -158,14 +267,114 @@ func resetAll(c *boc.Cell, d int) {
 	}
 }
 
+// sectionVmStack: the list convention of the VM stack API. Values pushed with
+// Put in the order a1..ak (ak ends on top) make the argument list top-first;
+// a decoded stack lists bottom-first. So decoding the encoding of a stack built
+// with Put gives the values in the order they were pushed - through the TL-B
+// codec and through the TL wrapper (MarshalTL / UnmarshalTL) alike. Also the
+// helper constructors TlbStructToVmCell / TlbStructToVmCellSlice: what they
+// wrap reads back equal.
+func sectionVmStack() {
+	tv := reflect.TypeOf(tlb.VmStackValue{})
+	for k := 0; k < R.N(300, 30000); k++ {
+		rng := R.Rng("vmput", k)
+		n := rng.Intn(7)
+		vals := make([]reflect.Value, n)
+		var s tlb.VmStack
+		for i := range vals {
+			g := reg.NewGen(rng)
+			g.Exotic = k%2 == 1
+			vals[i] = g.New(tv)
+			s.Put(vals[i].Interface().(tlb.VmStackValue))
+		}
+		wit := map[string]any{"case": k, "depth": n, "pushed": mon.Trunc(fmt.Sprintf("%+v", s), 1200)}
+		c := boc.NewCell()
+		var err error
+		if p := mon.Guard(func() { err = tlb.Marshal(c, s) }); p != nil || err != nil {
+			wit["err"] = fmt.Sprint(err, p)
+			R.Violation("error@Marshal/VmStack(Put)", wit)
+			continue
+		}
+		var tl []byte
+		if p := mon.Guard(func() { tl, err = s.MarshalTL() }); p != nil || err != nil {
+			wit["err"] = fmt.Sprint(err, p)
+			R.Violation("error@VmStack.MarshalTL", wit)
+			continue
+		}
+		var viaTLB, viaTL tlb.VmStack
+		if p := mon.Guard(func() { err = tlb.Unmarshal(c, &viaTLB) }); p != nil || err != nil {
+			wit["err"] = fmt.Sprint(err, p)
+			R.Violation("decode-failed@VmStack(Put)", wit)
+			continue
+		}
+		if p := mon.Guard(func() { err = viaTL.UnmarshalTL(bytes.NewReader(tl)) }); p != nil || err != nil {
+			wit["err"] = fmt.Sprint(err, p)
+			R.Violation("decode-failed@VmStack.UnmarshalTL", wit)
+			continue
+		}
+		R.Eval(fmt.Sprintf("vmput/%d/%d", n, k))
+		R.Seen("vm_put_depths", fmt.Sprint(n))
+		for name, got := range map[string]tlb.VmStack{"tlb": viaTLB, "tl": viaTL} {
+			if len(got) != n {
+				wit["got_len"], wit["via"] = len(got), name
+				R.Violation("put-order-mismatch@VmStack/"+name, wit)
+				break
+			}
+			for i := range vals {
+				gv := reflect.ValueOf(&got[i]).Elem()
+				if d := reg.Equal(vals[i], gv, reg.EqOpts{}); d != "" {
+					wit["diff"], wit["via"], wit["index"] = d, name, i
+					wit["decoded"] = mon.Trunc(fmt.Sprintf("%+v", got), 1200)
+					R.Violation("put-order-mismatch@VmStack/"+name, wit)
+					break
+				}
+			}
+		}
+		// helper constructors
+		g := reg.NewGen(rng)
+		e, _ := reg.Lookup(mon.Pick(rng, []string{"tlb.MsgAddress", "tlb.StateInit", "tlb.CurrencyCollection", "tlb.TrStoragePhase"}))
+		x := g.New(e.Type)
+		for _, how := range []string{"TlbStructToVmCell", "TlbStructToVmCellSlice"} {
+			var sv tlb.VmStackValue
+			back := reflect.New(e.Type)
+			var e1, e2 error
+			p := mon.Guard(func() {
+				if how == "TlbStructToVmCell" {
+					sv, e1 = tlb.TlbStructToVmCell(x.Interface())
+				} else {
+					sv, e1 = tlb.TlbStructToVmCellSlice(x.Interface())
+				}
+				if e1 == nil {
+					e2 = sv.Unmarshal(back.Interface())
+				}
+			})
+			if e1 != nil && p == nil {
+				continue // the value does not encode: legal
+			}
+			w := map[string]any{"case": k, "type": e.Name, "value": mon.Trunc(fmt.Sprintf("%+v", x.Interface()), 800)}
+			R.Eval(fmt.Sprintf("%s/%s/%d", how, e.Name, k))
+			if p != nil || e2 != nil {
+				w["err"] = fmt.Sprint(e2, p)
+				R.Violation("decode-failed@"+how, w)
+				continue
+			}
+			if d := reg.Equal(x, back.Elem(), reg.EqOpts{}); d != "" {
+				w["diff"] = d
+				R.Violation("roundtrip-mismatch@"+how, w)
+			}
+		}
+	}
+}
+
 func main() {
 	tier := "quick"
 	if len(os.Args) > 1 {
 		tier = os.Args[1]
 	}
 	R = mon.Start("C03", tier)
-	R.Rule = "for every exported TL-B type of packages tlb, wallet, abi (registry generated from the tongo sources at check time, plus hand-kept instantiations of the generic combinators) values are generated by reflection under the types' domain rules (every constructor of every union in turn, integer boundaries first, then random), encoded with tlb.Marshal, decoded with tlb.Unmarshal and tlb.NewDecoder() (from the built cell and from a BOC round trip) and compared semantically; the decoded value is encoded again and hashes compared; an encode error is a legal outcome; non-trivial = a value that encoded and was decoded+compared; distinct = distinct (type, constructor path, case index)"
+	R.Rule = "for every exported TL-B type of packages tlb, wallet, abi (registry generated from the tongo sources at check time, plus hand-kept instantiations of the generic combinators) values are generated by reflection under the types' domain rules (every constructor of every union in turn, integer boundaries first, then random), encoded with tlb.Marshal, decoded with tlb.Unmarshal and tlb.NewDecoder() (from the built cell and from a BOC round trip) and compared semantically; the decoded value is encoded again and hashes compared, and once more after every cell / bit string reachable in it has been read in place (32 bits, one reference); the original value is encoded a second time (same hash); half of the cases place library / Merkle-proof cells where the schema has ^Cell (library cells only where it has ^X with X = Any) and take the longest list forms (4 messages of a v3/v4 payload, 254 of a highload one, 255 wallet-v5 actions); VM stacks built with Put decode (TL-B and TL wrapper) to the values in push order, TlbStructToVmCell(Slice) read back equal; an encode error is a legal outcome; non-trivial = a value that encoded and was decoded+compared; distinct = distinct (type, constructor path, case index)"
 	R.Assume("domain rules of the generator (harness/reg/gen.go): VarUIntegerN holds at most N-1 bytes, UintN/IntN within N bits, Anycast depth 1..30 with prefix < 2^depth, AddrVar.AddrLen == len(Address), AddrExtern <= 511 bits, Magic fields hold their tag, non-chosen union arms and absent optionals are zero, enum strings take their declared constants")
+	R.Assume("exotic cells in the generated values: library and Merkle-proof cells of level 0 in boc.Cell positions (Merkle only behind pointers: the decoder declares a library cell there not implemented), library cells only as Any behind a reference; pruned branches are not values of the round trip (the decoder skips them by design: they stand for absent data)")
 	R.Assume("types whose encoder is declared not implemented (HashmapAug(E), BinTree, VmStkTuple, VmCont, ChunkedData) are never encoded here; they are exercised decode-side in C04 (real data) and C08")
 	types := reg.Types()
 	total, denied := reg.Count()
@@ -224,12 +433,16 @@ func main() {
 		}
 	}
 	_ = addrEntry
+	sectionVmStack()
 	var never, partial []string
 	encodedTypes := 0
 	arms := 0
+	exotic, peeked := 0, 0
 	for i, e := range types {
 		st := stats[i]
 		arms += len(st.arms)
+		exotic += st.exotic
+		peeked += st.peeked
 		if st.encoded == 0 {
 			never = append(never, e.Name+": "+mon.Trunc(st.lastErr, 80))
 		} else {
@@ -244,6 +457,8 @@ func main() {
 	R.Extra("types_encoded_at_least_once", encodedTypes)
 	R.Extra("constructors_hit", arms)
 	R.Extra("never_encoded", never)
+	R.Count("exotic_cells_placed", int64(exotic))
+	R.Count("cells_and_bitstrings_read_in_place", int64(peeked))
 	R.Extra("types_with_some_encode_errors", len(partial))
 	R.Sample(map[string]any{"type": "tlb.MsgAddress", "example": "AddrVar{AddrLen:257, WorkchainId:-2147483648, Address:257 random bits} -> Marshal -> Unmarshal -> equal; re-Marshal same hash"})
 	os.Exit(R.Finish())
